@@ -231,6 +231,13 @@ K.loop(0, var="i", invariant=[
 ])
 K.loop(1, var="j")                 # 9 neighbour slots: fully unrolled
 K.loop(2, var="j", unroll=9)       # padding with -1 from k to 9: unrolled with an unwinding assertion
+# the same relation in the form callers use (C06 reachability): every listed cell drains into idxdown[k], and every cell that does is listed
+UP_SOUND = "forall(p, 0 <= p < 9, idxup[9*k + p] == -1 or (valid_cell(nrows, ncols, idxup[9*k + p]) and down(nrows, ncols, flowdir[idxup[9*k + p]], idxup[9*k + p]) == idxdown[k]))"
+UP_COMPLETE = "forall(c, 0 <= c < nrows*ncols, implies(down(nrows, ncols, flowdir[c], c) == idxdown[k], exists(p, 0 <= p < 9, idxup[9*k + p] == c)))"
+K.behavior("esri_rel", FDC_IS + " and forall(k, 0 <= k < nval, valid_cell(nrows, ncols, idxdown[k]))",
+           "forall(k, 0 <= k < nval, " + UP_SOUND + " and " + UP_COMPLETE + ")", props=["C06"])
+K.loops[0].invariant.append("implies(" + FDC_IS + ", forall(k, 0 <= k < i, " + UP_SOUND + "))")
+K.loops[0].invariant.append("implies(" + FDC_IS + ", forall(k, 0 <= k < i, " + UP_COMPLETE + "))")
 
 # ====================================================================================== exact cell function
 # cell_of: the cell holding (x, y) -- floor-based, lower/left edges belong to the cell, -1 outside or for NaN.
